@@ -1,6 +1,7 @@
 package main
 
 import (
+	"strings"
 	"fmt"
 	"go/token"
 
@@ -153,6 +154,56 @@ func runC07(r *Run) {
 			"a dynamic-fee / access-list tx can reach the floor comparison with its declared fee (fee cap × gas) instead of its effective fee: VerifyFee later deducts only the effective fee, so with a low base fee the tx is accepted while paying less than gasLimit × MinGasPrice", wit...)
 	} else {
 		r.Bad("R2", "anchor/EthMinGasPriceDecorator.AnteHandle", "", "not found")
+	}
+
+	// ---- R6: the floor itself is not rounded down ----
+	r.Rule("R6", "SHAPE.floor-not-rounded-down: in MinGasPriceDecorator and EthMinGasPriceDecorator neither the required fee that the transaction's fee is compared with, nor the price whose IsZero() opens the bypass, passes through a rounding-down operation (Truncate*, QuoTruncate*, Floor): gasLimit × MinGasPrice is a lower bound, so it may only be rounded up (Ceil) — a truncated price admits fees below the floor and, for a price below 1, switches the floor off")
+	for _, id := range []string{"(app/ante/cosmos.MinGasPriceDecorator).AnteHandle", "(app/ante/evm.EthMinGasPriceDecorator).AnteHandle"} {
+		fn, ok := P.FnOK(id)
+		if !ok {
+			continue
+		}
+		roundsDown := func(sl *Slice) string {
+			hit := ""
+			sl.Any(func(v ssa.Value) bool {
+				if c, ok := v.(*ssa.Call); ok {
+					n := callInfo(c).Name
+					if strings.HasPrefix(n, "Truncate") || strings.Contains(n, "QuoTruncate") || n == "Floor" {
+						hit = n + " at " + P.Pos(instrPos(c))
+						return true
+					}
+				}
+				return false
+			})
+			return hit
+		}
+		bad := ""
+		nCmp := 0
+		eachCall(fn, func(ci CallInfo) {
+			a := callArgs(ci.Instr)
+			switch ci.Name {
+			case "IsAnyGTE", "LT", "GTE", "IsAllGTE":
+				if len(a) == 2 {
+					for _, x := range a {
+						sl := backSlice(x)
+						if depMinPrice(sl) {
+							nCmp++
+							if h := roundsDown(sl); h != "" {
+								bad = h
+							}
+						}
+					}
+				}
+			case "IsZero":
+				if len(a) >= 1 && depMinPrice(backSlice(a[0])) {
+					if h := roundsDown(backSlice(a[0])); h != "" {
+						bad = h
+					}
+				}
+			}
+		})
+		r.Check(bad == "" && nCmp > 0, "R6", fnID(fn)+"#floor-not-rounded-down", P.Pos(fnPos(fn)), "required fee and bypass test use the unrounded minimum gas price (rounded up at most)",
+			"the minimum-gas-price floor is rounded down ("+bad+") before it is compared / tested for zero: a fee below gasLimit × MinGasPrice is accepted whenever the price has a fractional part")
 	}
 
 	// ---- CanTransferDecorator ----
